@@ -21,10 +21,9 @@ Proof. exact chunking_invariant. Qed.
 Print Assumptions C16_chunking_invariant.
 
 (* after arbitrary damaged bytes [junk] and one delimiter, every frame is again
-   delivered intact; the damage yields exactly one result per damaged segment.
-   Partial: proved for damage whose zero-free runs fit the buffer limits (the
-   length guards then never fire); see DESIGN.md for the general case. *)
-Theorem C16_resync_partial :
+   delivered intact; when the damage's zero-free runs fit the buffer limits it yields
+   exactly one result per damaged segment (a sharper form of C16_resync below) *)
+Theorem C16_resync_bounded :
   forall blen maxlen junk fs chunks,
     (0 < blen)%nat ->
     Forall (frame_ok blen maxlen) fs ->
@@ -33,7 +32,22 @@ Theorem C16_resync_partial :
     reads_all blen maxlen chunks =
       map (seg_result blen) (fst (frames (junk ++ [0]))) ++ map RFrame fs ++ [RErr 9].
 Proof. exact resync_bounded. Qed.
-Print Assumptions C16_resync_partial.
+Print Assumptions C16_resync_bounded.
+
+
+(* second sentence at full strength: after ANY damaged bytes [junk] (corrupted, lost or inserted
+   bytes of earlier frames; any length, any content, also runs longer than the buffers, which make
+   the length guards fire and the buffered damage be discarded) and one delimiter, for every
+   segmentation into device reads the results end with exactly the frames written after that
+   delimiter: only results produced from the damage ([pre]) may be errors or wrong *)
+Theorem C16_resync :
+  forall blen maxlen fs junk chunks,
+    (0 < blen)%nat ->
+    Forall (frame_ok blen maxlen) fs ->
+    concat chunks = junk ++ 0 :: concat (map write fs) ->
+    exists pre, reads_all blen maxlen chunks = pre ++ map RFrame fs ++ [RErr 9].
+Proof. intros blen maxlen fs junk chunks Hb Hok Hc. exact (resync blen maxlen fs Hb Hok blen junk chunks eq_refl Hc). Qed.
+Print Assumptions C16_resync.
 
 (* non-vacuity: concrete frames meet the hypotheses *)
 Example C16_frame_ok_example :
